@@ -174,8 +174,11 @@ def apply_png_predictor(
     # (PNG specification, section 6.2: bpp is at least one)
     nbytes = (colors * columns * bitspercomponent + 7) // 8
     bpp = (colors * bitspercomponent + 7) // 8
+    if nbytes <= 0:
+        raise PDFValueError(f"Unsupported predictor geometry: {colors} x {columns}")
     buf = []
-    line_above = list(b"\x00" * nbytes)
+    # a row cannot hold more than there is data
+    line_above = list(b"\x00" * min(nbytes, len(data)))
     for scanline_i in range(0, len(data), nbytes + 1):
         filter_type = data[scanline_i]
         line_encoded = data[scanline_i + 1 : scanline_i + 1 + nbytes]
